@@ -130,7 +130,11 @@ func (cfg *Config) paramExp(pe *syntax.ParamExp) (string, error) {
 		case Indexed:
 			indexAllElements = true
 			callVarInd = false
-			elems = cfg.sliceElems(pe, vr.List, vr.Indexes, name == "@" || name == "*")
+			var err error
+			elems, err = cfg.sliceElems(pe, vr.List, vr.Indexes, name == "@" || name == "*")
+			if err != nil {
+				return "", err
+			}
 			str = join(elems)
 		}
 	}
@@ -192,22 +196,31 @@ func (cfg *Config) paramExp(pe *syntax.ParamExp) (string, error) {
 		if callVarInd {
 			// The offset and length are in characters, not bytes.
 			rs := []rune(str)
-			slicePos := func(n int) int {
+			start := 0
+			if pe.Slice.Offset != nil {
+				if start = sliceOffset; start < 0 {
+					start += len(rs) // a negative offset counts from the end
+				}
+			}
+			if !set || start < 0 || start > len(rs) {
+				// An unset parameter or an offset out of range expand to
+				// nothing, and the length is not even looked at.
+				str = ""
+				break
+			}
+			rs = rs[start:]
+			if pe.Slice.Length != nil {
+				n := sliceLen
 				if n < 0 {
-					n = len(rs) + n
-					if n < 0 {
-						n = len(rs)
+					// A negative length is an offset from the end of the value,
+					// which must not lie before the start offset.
+					if n += len(rs); n < 0 {
+						return "", fmt.Errorf("%d: substring expression < 0", sliceLen)
 					}
 				} else if n > len(rs) {
 					n = len(rs)
 				}
-				return n
-			}
-			if pe.Slice.Offset != nil {
-				rs = rs[slicePos(sliceOffset):]
-			}
-			if pe.Slice.Length != nil {
-				rs = rs[:slicePos(sliceLen)]
+				rs = rs[:n]
 			}
 			str = string(rs)
 		} // else, elems are already sliced
